@@ -156,9 +156,25 @@ def gen_fault_config(rng, i):
     T = too_many_eq_tree(rng)
   else:
     T = tg.gen_tree(rng, pick(rng, [0, 1, 1, 2]), lengths=[1, 2, 3], fanout=3)
-  return {'t': T, 'cfg': kind, 'p': tg.gen_tree_price(rng, T), 's0': gen_start(rng, T),
-          'prox': pick(rng, [None, None, F(0), F(1, 2), F(2)]), 'probe': flat(tg.gen_matrix(rng, T)),
-          'good': flat(tg.gen_matrix(rng, T))}
+    if i % 6 == 4:      # this configuration must reach the optimiser (see below): not all-fixed, not over-determined
+      for _ in range(12):
+        try:
+          dev = tg.build_tree(T)
+          if not all_fixed(T) and sum(1 for k in dev.constraints if k['type'] == 'eq') <= int(np.prod(dev.shape)):
+            break
+        except Exception:
+          pass
+        T = tg.gen_tree(rng, pick(rng, [0, 1, 1]), lengths=[1, 2, 3], fanout=3)
+  cfg = {'t': T, 'cfg': kind, 'p': tg.gen_tree_price(rng, T), 's0': gen_start(rng, T),
+         'prox': pick(rng, [None, None, F(0), F(1, 2), F(2)]), 'probe': flat(tg.gen_matrix(rng, T)),
+         'good': flat(tg.gen_matrix(rng, T))}
+  if i % 6 == 4:
+    # a caller-supplied start point OUTSIDE the bounds with a proximal weight: the proximal term is centred on the point the caller
+    # gave (the start point is only a hint for the optimiser; nothing may move the centre)
+    M = tg.gen_matrix(rng, T)
+    cfg['s0'] = (pick(rng, ['flat', 'shaped']), [[v + 64 + j for j, v in enumerate(r)] for r in M])
+    cfg['prox'] = pick(rng, [F(1, 2), F(2)])
+  return cfg
 
 
 def convex_tree(rng, depth):
